@@ -313,6 +313,58 @@ Proof.
   eapply perm_trans; [apply perm_skip; exact IH|apply insert_desc_perm].
 Qed.
 
+
+(* stability of sorted(..., reverse=True): within one key class the original relative order is kept *)
+Lemma insert_desc_class_in : forall (A : Type) (key : A -> Q) q x l, key x == q ->
+  filter (fun y => Qeq_bool (key y) q) (insert_desc key x l) = x :: filter (fun y => Qeq_bool (key y) q) l.
+Proof.
+  intros A key q x l Hx. induction l as [|y l IH]; cbn [insert_desc filter].
+  - rewrite (proj2 (Qeq_bool_iff _ _) Hx). reflexivity.
+  - destruct (Qle_bool (key y) (key x)) eqn:E.
+    + cbn [filter]. rewrite (proj2 (Qeq_bool_iff _ _) Hx). reflexivity.
+    + apply Qleb_false in E. cbn [filter].
+      destruct (Qeq_bool (key y) q) eqn:Ey.
+      * apply Qeq_bool_iff in Ey. exfalso. lra.
+      * exact IH.
+Qed.
+
+Lemma insert_desc_class_out : forall (A : Type) (key : A -> Q) q x l, ~ key x == q ->
+  filter (fun y => Qeq_bool (key y) q) (insert_desc key x l) = filter (fun y => Qeq_bool (key y) q) l.
+Proof.
+  intros A key q x l Hx.
+  assert (Hb : Qeq_bool (key x) q = false).
+  { destruct (Qeq_bool (key x) q) eqn:E; [apply Qeq_bool_iff in E; contradiction|reflexivity]. }
+  induction l as [|y l IH]; cbn [insert_desc filter].
+  - rewrite Hb. reflexivity.
+  - destruct (Qle_bool (key y) (key x)) eqn:E; cbn [filter].
+    + rewrite Hb. reflexivity.
+    + rewrite IH. reflexivity.
+Qed.
+
+Lemma sort_desc_stable : forall (A : Type) (key : A -> Q) q l,
+  filter (fun y => Qeq_bool (key y) q) (sort_desc key l) = filter (fun y => Qeq_bool (key y) q) l.
+Proof.
+  intros A key q l. unfold sort_desc. induction l as [|x l IH]; cbn [fold_right]; [reflexivity|].
+  destruct (Qeq_bool (key x) q) eqn:E.
+  - rewrite insert_desc_class_in by (apply Qeq_bool_iff; exact E).
+    cbn [filter]. rewrite E, IH. reflexivity.
+  - rewrite insert_desc_class_out by (intro H; apply Qeq_bool_iff in H; congruence).
+    cbn [filter]. rewrite E. exact IH.
+Qed.
+
+(* a list that is already in priority order is left exactly as it is: the sort is idempotent *)
+Lemma sort_desc_fixed : forall (A : Type) (key : A -> Q) l, sorted_desc key l -> sort_desc key l = l.
+Proof.
+  intros A key l. unfold sort_desc. induction l as [|x l IH]; intro H; cbn [fold_right]; [reflexivity|].
+  destruct H as [H1 H2]. rewrite (IH H2).
+  destruct l as [|y l]; cbn [insert_desc]; [reflexivity|].
+  inversion H1 as [|? ? Hy _]; subst.
+  rewrite (proj2 (Qle_bool_iff _ _) Hy). reflexivity.
+Qed.
+
+Lemma sort_desc_idem : forall (A : Type) (key : A -> Q) l, sort_desc key (sort_desc key l) = sort_desc key l.
+Proof. intros A key l. apply sort_desc_fixed. apply sort_desc_sorted. Qed.
+
 (* ================================================================== C06: month step *)
 
 Definition static_ok (st : sstatic) : Prop :=
